@@ -401,6 +401,8 @@ impl Family for C01 {
         let e = if index % 2 == 0 { En::BE } else { En::LE };
         let word = Wd::ALL[((index / 2) % 5) as usize];
         if crate::giant::is_giant_index(index) {
+            // (the index selects the endianness above: draw it anew, giant indices are all odd)
+            let e = if rng.chance(1, 2) { En::BE } else { En::LE };
             let g = crate::giant::unary_only(crate::giant::gen_giant(rng));
             return S01 {
                 e,
@@ -545,18 +547,19 @@ impl Family for C01 {
     }
 
     fn rule() -> &'static str {
-        "one case = (endianness, backend word u8..u128, backend kind {recording stub, growable vector, fixed slice, WordAdapter over SimDisk, WordAdapter over std BufWriter over SimDisk}, history of <=48 write_bits(v,n)/write_unary(x)/flush with n biased to 0,1,63,64, space_left-1/=/+1, W-1/W/W+1 and v with random dirty high bits, unary spanning 0..5 words, close kind at the end of the history {drop, into_inner, flush;flush;drop, flush;into_inner}); a quarter of the runs replays the same history on all five word sizes. distinct_nontrivial = distinct (endianness, word, op kind, free space in the bit buffer before the op, n or unary-length class relative to the free space, previous op kind) signatures"
+        "one case = (endianness, backend word u8..u128, backend kind {recording stub, growable vector, fixed slice, WordAdapter over SimDisk, WordAdapter over std BufWriter over SimDisk}, history of <=48 write_bits(v,n)/write_unary(x)/flush with n biased to 0,1,63,64, space_left-1/=/+1, W-1/W/W+1 and v with random dirty high bits, unary spanning 0..5 words, close kind at the end of the history {drop, into_inner, flush;flush;drop, flush;into_inner}); a quarter of the runs replays the same history on all five word sizes. distinct_nontrivial = distinct (endianness, word, op kind, free space in the bit buffer before the op, n or unary-length class relative to the free space, previous op kind) signatures Scale scenarios: one run in 200-400 has several hundred operations or a zero run / unary part / copy / skip / slice above 2^16 bits; one run in 100 000 (sim/src/giant.rs) has a unary part of 2^32-2 .. 2^32+137 bits written to a sparse recording sink (only non-zero words and the word count are kept), compared with the non-zero words of the canonical image."
     }
 
     fn components() -> (Vec<&'static str>, Vec<&'static str>) {
         (
             vec!["BufBitWriter<BE|LE> (write_bits, write_unary, flush, Drop, into_inner)", "MemWordWriterVec", "MemWordWriterSlice", "WordAdapter", "std::io::BufWriter"],
-            vec!["recording word sink (RecWordWrite)", "SimDisk (fault-free here)"],
+            vec!["recording word sink (RecWordWrite)", "SimDisk (fault-free here)", "sparse recording word sink (scale scenarios)"],
         )
     }
 
     fn required_probes(_t: Tier) -> Vec<&'static str> {
         vec![
+            "scale.giant_unary_written",
             "c01.n64_empty_buffer",
             "c01.bits_span_3_words",
             "c01.unary_exact_fill",
